@@ -407,7 +407,6 @@ func (s *Server) attachClient(cl *Client, listener string) error {
 	defer s.Listeners.ClientsWg.Done()
 	s.Listeners.ClientsWg.Add(1)
 
-	go cl.WriteLoop()
 	defer cl.Stop(nil)
 
 	pk, err := s.readConnectionPacket(cl)
@@ -471,6 +470,8 @@ func (s *Server) attachClient(cl *Client, listener string) error {
 	if err != nil {
 		return fmt.Errorf("ack connection packet: %w", err)
 	}
+
+	go cl.WriteLoop() // queued publishes are written only after the CONNACK [MQTT-3.2.0-1]
 
 	select {
 	case <-s.done:
